@@ -12,9 +12,21 @@ OCAML_SRC = os.path.join(ROOT, 'ocaml')
 OCAML_BUILD = os.path.join(BUILD, 'ocaml')
 HARNESS = os.path.join(ROOT, 'harness')
 TARGET = os.path.join(BUILD, 'target')
-REPO = '/repo'
+REPO = os.environ.get('VERIF_REPO', '/repo')      # development aid: run the checks against a scratch worktree
 GUARD = 'spindalis_verif'
 NPROC = 16
+
+if REPO != '/repo':
+    # a private copy of the harness manifest pointing at the scratch tree, with its own target directory
+    _tag = hashlib.sha1(REPO.encode()).hexdigest()[:8]
+    _alt = os.path.join(BUILD, 'alt', _tag)
+    os.makedirs(os.path.join(_alt, 'harness'), exist_ok=True)
+    _m = open(os.path.join(HARNESS, 'Cargo.toml')).read().replace('/repo/', REPO.rstrip('/') + '/')
+    open(os.path.join(_alt, 'harness', 'Cargo.toml'), 'w').write(_m)
+    if not os.path.exists(os.path.join(_alt, 'harness', 'src')):
+        os.symlink(os.path.join(HARNESS, 'src'), os.path.join(_alt, 'harness', 'src'))
+    HARNESS = os.path.join(_alt, 'harness')
+    TARGET = os.path.join(_alt, 'target')
 
 ENV = dict(os.environ, CARGO_NET_OFFLINE='true', CARGO_TARGET_DIR=TARGET)
 
